@@ -15,7 +15,7 @@ REPO = Path(os.environ.get('VERIF_REPO', '/repo')).resolve()
 SPEC = VERIF / 'spec'
 CACHE = VERIF / '.cache'
 # a run against a tree other than /repo (seeded-change confirmation) must not overwrite the evidence of /repo
-_SIDE = VERIF / '.cache' / 'side' if REPO != Path('/repo') else VERIF
+_SIDE = VERIF / '.cache' / 'side' if (REPO != Path('/repo') or os.environ.get('VERIF_REPLAY_MODE')) else VERIF
 REPLAYS = _SIDE / 'replays'
 EVIDENCE = _SIDE / 'evidence'
 GUARD = 'GEOPHIRES_X_VERIF'
